@@ -175,6 +175,10 @@ def main():
                         proj = sq + slab
                     else:
                         proj_items[0] = sq + slab + "." + want_cols[0]
+                        if slab and len(proj_items) > 1 and rng.random() < 0.35:
+                            # the record range written with every column: it is one range, applied once
+                            proj_items = ["%s%s.%s" % (sq, slab, c) for c in want_cols]
+                            stats["range_with_every_column"] = stats.get("range_with_every_column", 0) + 1
                         proj = ",".join(proj_items)
                         if want_cols == cols and not slab and rng.random() < 0.5:
                             proj = sq
